@@ -18,7 +18,18 @@ def NN (x : F) : Prop := isNaN x = true ∨ le (zero : F) x = true
 /-- NaN or in the unit interval -/
 def U (x : F) : Prop := isNaN x = true ∨ (le (zero : F) x = true ∧ le x (one : F) = true)
 
-class LawfulFloatLike (F : Type) [FloatLike F] : Prop where
+/-- The two facts behind the exact symmetry of the distance estimate (C21_symm).  Both hold for IEEE-754 doubles,
+for exact rationals (`ERat`) and for every rounding model `Rnd fl` with an odd rounding function
+(Lemmas/Rounding.lean: `commLaws_of_odd`). -/
+class CommLaws (F : Type) [FloatLike F] : Prop where
+  /-- IEEE-754 addition is commutative (the correctly rounded value of the exact sum does not depend on the order of
+  the operands) -/
+  add_comm : ∀ x y : F, add x y = add y x
+  /-- negation is exact, so a - b and b - a have the same square.  (For float64 this holds up to the payload bits
+  of a NaN result, which nothing in the model observes: every NaN prints as `nan` and converts to -2^63.) -/
+  sub_sq_comm : ∀ a b : F, mul (sub a b) (sub a b) = mul (sub b a) (sub b a)
+
+class LawfulFloatLike (F : Type) [FloatLike F] : Prop extends CommLaws F where
   /-- 0.0 is neither NaN nor infinite -/
   zero_finite : finite (zero : F) = true
   /-- NaN is unordered -/
@@ -54,8 +65,5 @@ class LawfulFloatLike (F : Type) [FloatLike F] : Prop where
   /-- `int64(x)` of a NaN or a non-negative value is non-negative, or it is the out-of-range indicator -2^63
   (amd64 CVTTSD2SQ) -/
   toInt64_nn : ∀ x : F, NN x → 0 ≤ toInt64 x ∨ toInt64 x = -9223372036854775808
-  /-- negation is exact: for finite a, b the differences a - b and b - a have the same square -/
-  sub_sq_comm : ∀ a b : F, finite a = true → finite b = true →
-      mul (sub a b) (sub a b) = mul (sub b a) (sub b a)
 
 end SerfModel
